@@ -300,6 +300,11 @@ def r2_ambiguity(repo, report):
         n = 0
         import itertools
 
+        # whatever happens to one string, the enumeration of the adapter's neighbourhood goes on with the next string
+        for r in rows:
+            if r.exit[0] in ("break", "return", "raise"):
+                mism.append({"inputs": r.describe()["valuation"], "code": f"the loop over the neighbourhood is left with '{r.exit[0]}'", "expected": "continue with the next string"})
+
         for combo in itertools.product((False, True), (-1, 0, 1), (False, True)):
             rv = dict(zip(("known", "d", "amb"), combo))
             if not constraint(rv):
